@@ -81,7 +81,10 @@ CONSTANTS Writers, Streamers, Keys,
           OpenSubs,       \* subscriptions the environment may open a streamer with
           Subs,           \* subscriptions the environment may re-subscribe to
           CloseModes,     \* subset of {"graceful", "cancel"}
-          LateOpen        \* writers opened during the run (the others are open at Init)
+          LateOpen,       \* writers opened during the run (the others are open at Init)
+          TimerRearm,     \* TRUE = source.go as written: the slow-consumer timer is re-armed each
+                          \* time it fires, so every outlet of a frame's fan-out has its own timeout
+          SleepForever    \* TRUE = a MaySleep consumer need never read again (no fairness)
 
 VARIABLES wstate,   \* [Writers -> {"init","opening","open","closing","closed"}]
           gates,    \* [Writers -> SUBSET Keys]: channels on which the writer holds an open gate
@@ -94,6 +97,8 @@ VARIABLES wstate,   \* [Writers -> {"init","opening","open","closing","closed"}]
           didx,     \* index into conns of the next outlet to serve
           conns,    \* Seq(Streamers): delta.Source.Out
           drun,     \* delta goroutine alive
+          dfired,   \* the timer fired during this frame's fan-out and was NOT re-armed
+                    \* (always FALSE when TimerRearm)
           sst,      \* [Streamers -> state]
           keys,     \* [Streamers -> SUBSET Keys]: s.Channels
           held,     \* [Streamers -> frame | NoFrame]: received, not yet filtered+sent
@@ -112,7 +117,7 @@ VARIABLES wstate,   \* [Writers -> {"init","opening","open","closing","closed"}]
           emptied   \* [Streamers -> SUBSET (Writers \X Nat)]: filtered to nothing
 
 wvars == <<wstate, gates, wdone, wyes, wnext, wq>>
-dvars == <<inlet, dcur, didx, conns, drun>>
+dvars == <<inlet, dcur, didx, conns, drun, dfired>>
 svars == <<sst, keys, held, out, req, closing, nresub>>
 gvars == <<written, got, subHist, owed, emptied>>
 vars  == <<wvars, dvars, svars, dbClosed, gvars>>
@@ -141,7 +146,7 @@ Init ==
   /\ gates = [w \in Writers |-> IF w \in LateOpen THEN {} ELSE WKeys[w]]
   /\ wdone = [w \in Writers |-> {}] /\ wyes = [w \in Writers |-> {}]
   /\ wq = [w \in Writers |-> <<>>]
-  /\ inlet = <<>> /\ dcur = NoFrame /\ didx = 1 /\ conns = <<>> /\ drun = TRUE
+  /\ inlet = <<>> /\ dcur = NoFrame /\ didx = 1 /\ conns = <<>> /\ drun = TRUE /\ dfired = FALSE
   /\ sst = [s \in Streamers |-> "Init"] /\ keys = [s \in Streamers |-> {}]
   /\ held = [s \in Streamers |-> NoFrame] /\ out = [s \in Streamers |-> <<>>]
   /\ req = [s \in Streamers |-> NoReq] /\ closing = [s \in Streamers |-> "no"]
@@ -197,7 +202,7 @@ WriterPush(w) ==
                THEN owed[s] \cup {<<w, f.q>>} ELSE owed[s]]
   /\ wq' = [wq EXCEPT ![w] = Tail(@)]
   /\ wdone' = [wdone EXCEPT ![w] = {}] /\ wyes' = [wyes EXCEPT ![w] = {}]
-  /\ UNCHANGED <<wstate, gates, wnext, dcur, didx, conns, drun, svars, dbClosed, got, subHist, emptied>>
+  /\ UNCHANGED <<wstate, gates, wnext, dcur, didx, conns, drun, dfired, svars, dbClosed, got, subHist, emptied>>
 
 \* Writer.Close: pending requests are served first, then the gates are released one by one
 WriterClose(w) ==
@@ -219,7 +224,7 @@ DeltaTake ==
   /\ DeltaIdle /\ inlet # <<>>
   /\ inlet' = Tail(inlet)
   /\ IF conns = <<>> THEN dcur' = NoFrame ELSE dcur' = Head(inlet)
-  /\ didx' = 1
+  /\ didx' = 1 /\ dfired' = FALSE      \* delta.go: timer.Reset(d.timeout) before each frame
   /\ UNCHANGED <<conns, drun, wvars, svars, dbClosed, gvars>>
 
 Advance ==
@@ -233,13 +238,19 @@ DeltaSendTo(s) ==
      \/ /\ Draining(s)
         /\ held' = held
   /\ Advance
-  /\ UNCHANGED <<inlet, conns, drun, wvars, sst, keys, out, req, closing, nresub, dbClosed, gvars>>
+  /\ UNCHANGED <<inlet, conns, drun, dfired, wvars, sst, keys, out, req, closing, nresub, dbClosed, gvars>>
 
 \* slow consumer: only a streamer whose consumer may sleep is ever timed out (with the
 \* raised timeout of the "complete" configuration a ready consumer never is)
+\* SendToEachWithTimeout: `case <-timer.C: timer.Reset(t)` - the timeout is per OUTLET: each
+\* outlet of the fan-out that is not served in time is skipped on its own, the others are still
+\* served. (TimerRearm = FALSE: one budget per frame; after it is spent the remaining sends of
+\* that frame have no timeout at all.)
 DeltaTimeout(s) ==
   /\ drun /\ dcur # NoFrame /\ didx <= Len(conns) /\ conns[didx] = s
   /\ s \notin Ready
+  /\ TimerRearm \/ ~dfired
+  /\ dfired' = ~TimerRearm
   /\ Advance
   /\ UNCHANGED <<inlet, conns, drun, wvars, svars, dbClosed, gvars>>
 
@@ -247,13 +258,13 @@ DeltaConnect(s) ==
   /\ DeltaIdle /\ sst[s] = "Connecting"
   /\ conns' = Append(conns, s)
   /\ sst' = [sst EXCEPT ![s] = "Running"]
-  /\ UNCHANGED <<inlet, dcur, didx, drun, wvars, keys, held, out, req, closing, nresub, dbClosed, gvars>>
+  /\ UNCHANGED <<inlet, dcur, didx, drun, dfired, wvars, keys, held, out, req, closing, nresub, dbClosed, gvars>>
 
 DeltaDisconnect(s) ==
   /\ DeltaIdle /\ sst[s] = "Disconnecting"
   /\ conns' = Remove(conns, s)
   /\ sst' = [sst EXCEPT ![s] = "Draining"]
-  /\ UNCHANGED <<inlet, dcur, didx, drun, wvars, keys, held, out, req, closing, nresub, dbClosed, gvars>>
+  /\ UNCHANGED <<inlet, dcur, didx, drun, dfired, wvars, keys, held, out, req, closing, nresub, dbClosed, gvars>>
 
 ---------------------------------------------------------------------------
 \* streamers
@@ -324,7 +335,7 @@ DBClose ==
   /\ Window_CloseWithOpenWriters \/ \A w \in Writers : wstate[w] \in {"init", "closed"}
   /\ AllowOrphan \/ \A s \in Streamers : sst[s] \in {"Init", "Closed"}
   /\ dbClosed' = TRUE /\ drun' = FALSE
-  /\ dcur' = NoFrame /\ didx' = 1 /\ conns' = <<>>
+  /\ dcur' = NoFrame /\ didx' = 1 /\ conns' = <<>> /\ dfired' = FALSE
   /\ sst' = [s \in Streamers |->
         IF sst[s] \in {"Connecting", "Running", "Disconnecting"} THEN "Orphaned" ELSE sst[s]]
   /\ UNCHANGED <<inlet, wvars, keys, held, out, req, closing, nresub, gvars>>
@@ -360,7 +371,7 @@ Fairness ==
        /\ WF_vars(DeltaSendTo(s)) /\ WF_vars(DeltaTimeout(s)) /\ WF_vars(DeltaConnect(s))
        /\ WF_vars(DeltaDisconnect(s)) /\ WF_vars(StreamerFilterSend(s))
        /\ WF_vars(Resubscribe(s)) /\ WF_vars(StreamerExit(s)) /\ WF_vars(DrainDone(s))
-       /\ WF_vars(ConsumerRecv(s))
+       /\ (s \in Ready \/ ~SleepForever) => WF_vars(ConsumerRecv(s))
 Spec == Init /\ [][Next]_vars /\ Fairness
 
 ---------------------------------------------------------------------------
@@ -402,7 +413,8 @@ InPipe(s, w, q) ==
 InGot(s, w, q) == \E i \in DOMAIN got[s][w] : got[s][w][i].q = q
 Accounted(s, w, q) == InPipe(s, w, q) \/ InGot(s, w, q) \/ <<w, q>> \in emptied[s]
 
-\* an always-ready consumer loses nothing while its streamer is connected and not closing
+\* an always-ready consumer loses nothing while its streamer is connected and not closing -
+\* whatever the OTHER streamers' consumers do (asleep, one or several at the same time)
 ReadyGetsAll ==
   \A s \in Ready : (sst[s] = "Running" /\ closing[s] = "no") =>
      \A p \in owed[s] : Accounted(s, p[1], p[2])
